@@ -162,7 +162,7 @@ func checkC11(c *Ctx) {
 						}
 						return "inc(" + st.Desc(a[1]) + "," + st.Desc(a[2]) + ")"
 					case IsCallTo(x, chkF):
-						if traces(st, a[1], func(v ssa.Value) bool { return v == ssa.Value(entP) }) && traces(st, a[2], func(v ssa.Value) bool { return v == ssa.Value(ceP) }) && st.Desc(a[0]) == recvN+".Core" {
+						if traces(st, a[1], func(v ssa.Value) bool { return v == ssa.Value(entP) }) && traces(st, a[2], func(v ssa.Value) bool { return v == ssa.Value(ceP) }) && st.Desc(a[0]) == recvN+"."+samplerCoreField(c) {
 							return "forward"
 						}
 						return "forward(" + st.Desc(a[0]) + "," + st.Desc(a[1]) + "," + st.Desc(a[2]) + ")"
@@ -465,11 +465,11 @@ func c11Shared(c *Ctx) {
 	got, okW := settings(w)
 	rn := PN(w.Params[0])
 	ok := okW && setting(got, rn, "counts") == rn+".counts" && setting(got, rn, "tick") == rn+".tick" && strings.HasPrefix(setting(got, rn, "first"), rn+".") && strings.HasSuffix(setting(got, rn, "first"), ".first") &&
-		strings.HasPrefix(setting(got, rn, "thereafter"), rn+".") && strings.HasSuffix(setting(got, rn, "thereafter"), ".thereafter") && setting(got, rn, "hook") == rn+".hook" && setting(got, rn, "Core") == "With("+rn+".Core, "+PN(w.Params[1])+")"
+		strings.HasPrefix(setting(got, rn, "thereafter"), rn+".") && strings.HasSuffix(setting(got, rn, "thereafter"), ".thereafter") && setting(got, rn, "hook") == rn+".hook" && setting(got, rn, samplerCoreField(c)) == "With("+rn+"."+samplerCoreField(c)+", "+PN(w.Params[1])+")"
 	c.Check(ok, "R11.3", w.String(), "shares-budget", w.Pos(), "a derived sampler points at the SAME counters and keeps tick/first/thereafter/hook (%v)", got)
 	got, okN := settings(nw)
 	fresh := func(d string) bool { return d == "<fresh>" }
-	ok = okN && fresh(setting(got, "", "counts")) && strings.HasSuffix(setting(got, "", "hook"), "nopSamplingHook") && setting(got, "", "first") == "conv[uint64]("+PN(nw.Params[2])+")" && setting(got, "", "thereafter") == "conv[uint64]("+PN(nw.Params[3])+")" && setting(got, "", "tick") == PN(nw.Params[1]) && setting(got, "", "Core") == PN(nw.Params[0])
+	ok = okN && fresh(setting(got, "", "counts")) && strings.HasSuffix(setting(got, "", "hook"), "nopSamplingHook") && setting(got, "", "first") == "conv[uint64]("+PN(nw.Params[2])+")" && setting(got, "", "thereafter") == "conv[uint64]("+PN(nw.Params[3])+")" && setting(got, "", "tick") == PN(nw.Params[1]) && setting(got, "", samplerCoreField(c)) == PN(nw.Params[0])
 	c.Check(ok, "R11.3", nw.String(), "constructor", nw.Pos(), "the constructor allocates one counter table, defaults the hook to the no-op and stores tick/first/thereafter as given (%v)", got)
 	c11CtorOK, c11CtorGot = ok, fmt.Sprint(got)
 }
@@ -894,4 +894,19 @@ func freshAlloc(st *ConcState, v ssa.Value, depth int) bool {
 		return n > 0
 	}
 	return false
+}
+
+// samplerCoreField: the name of the sampler's field that holds the wrapped core (its field of type zapcore.Core,
+// embedded or named).
+func samplerCoreField(c *Ctx) string {
+	if n := c.Named(CorePath, "sampler"); n != nil {
+		if st, ok := n.Underlying().(*types.Struct); ok {
+			for i := 0; i < st.NumFields(); i++ {
+				if TypeName(st.Field(i).Type()) == "zapcore.Core" {
+					return st.Field(i).Name()
+				}
+			}
+		}
+	}
+	return "Core"
 }
